@@ -124,7 +124,8 @@ def gen_type(path, holder, t, diffs, ns):
         ref = t['interface']
         want = ref if (ref and '.' in ref) else ref
         # g-ir-generate qualifies foreign names and leaves local ones bare
-        if name not in (want, '%s.%s' % (ns, want)):
+        # (a by-name reference into the namespace itself - local type reached through an <alias> - names the local entry)
+        if name not in (want, '%s.%s' % (ns, want)) and want != '%s.%s' % (ns, name):
             diffs.append('%s: type name %r, typelib says interface %r' % (path, name, ref))
     elif tag in ('glist', 'gslist', 'ghash', 'error'):
         want = {'glist': 'GLib.List', 'gslist': 'GLib.SList', 'ghash': 'GLib.HashTable', 'error': 'GLib.Error'}[tag]
